@@ -93,28 +93,23 @@ func (e *ElemData) MarshalJSON() ([]byte, error) {
 		}
 		return json.Marshal(elem{ID: e.ID, Source: e.Source, Target: e.Target, Parent: e.Parent})
 	}
-	e.Attributes["id"] = e.ID
+	// Work on a copy: the receiver's map may be shared,
+	// and the fixed fields are not attributes of the caller's.
+	attrs := make(map[string]interface{}, len(e.Attributes)+4)
+	for k, v := range e.Attributes {
+		attrs[k] = v
+	}
+	attrs["id"] = e.ID
 	if e.Source != "" {
-		e.Attributes["source"] = e.Source
+		attrs["source"] = e.Source
 	}
 	if e.Target != "" {
-		e.Attributes["target"] = e.Target
+		attrs["target"] = e.Target
 	}
 	if e.Parent != "" {
-		e.Attributes["parent"] = e.Parent
+		attrs["parent"] = e.Parent
 	}
-	b, err := json.Marshal(e.Attributes)
-	delete(e.Attributes, "id")
-	if e.Source != "" {
-		delete(e.Attributes, "source")
-	}
-	if e.Target != "" {
-		delete(e.Attributes, "target")
-	}
-	if e.Parent != "" {
-		delete(e.Attributes, "parent")
-	}
-	return b, err
+	return json.Marshal(attrs)
 }
 
 // UnmarshalJSON implements the json.Unmarshaler interface.
@@ -198,12 +193,15 @@ func (n *NodeData) MarshalJSON() ([]byte, error) {
 		}
 		return json.Marshal(node{ID: n.ID, Parent: n.Parent})
 	}
-	n.Attributes["id"] = n.ID
-	n.Attributes["parent"] = n.Parent
-	b, err := json.Marshal(n.Attributes)
-	delete(n.Attributes, "id")
-	delete(n.Attributes, "parent")
-	return b, err
+	// Work on a copy: the receiver's map may be shared,
+	// and the fixed fields are not attributes of the caller's.
+	attrs := make(map[string]interface{}, len(n.Attributes)+4)
+	for k, v := range n.Attributes {
+		attrs[k] = v
+	}
+	attrs["id"] = n.ID
+	attrs["parent"] = n.Parent
+	return json.Marshal(attrs)
 }
 
 // UnmarshalJSON implements the json.Unmarshaler interface.
@@ -262,14 +260,16 @@ func (e *EdgeData) MarshalJSON() ([]byte, error) {
 		}
 		return json.Marshal(edge{ID: e.ID, Source: e.Source, Target: e.Target})
 	}
-	e.Attributes["id"] = e.ID
-	e.Attributes["source"] = e.Source
-	e.Attributes["target"] = e.Target
-	b, err := json.Marshal(e.Attributes)
-	delete(e.Attributes, "id")
-	delete(e.Attributes, "source")
-	delete(e.Attributes, "target")
-	return b, err
+	// Work on a copy: the receiver's map may be shared,
+	// and the fixed fields are not attributes of the caller's.
+	attrs := make(map[string]interface{}, len(e.Attributes)+4)
+	for k, v := range e.Attributes {
+		attrs[k] = v
+	}
+	attrs["id"] = e.ID
+	attrs["source"] = e.Source
+	attrs["target"] = e.Target
+	return json.Marshal(attrs)
 }
 
 // UnmarshalJSON implements the json.Unmarshaler interface.
